@@ -218,6 +218,13 @@ pub proof fn lemma_tz_full{X}(w: {I}, r: int)
 
 // index arithmetic of a chunk [a, a+l) that stays inside one word, copied from/to [b, b+l).
 // (explicit div/mod proofs: left to Z3's own div/mod reasoning these were the unstable queries of the whole development)
+/// q * W + r with 0 <= r < W has quotient q and remainder r (explicit, so that no caller depends on Z3's own div/mod reasoning)
+pub proof fn lemma_divmod_at{X}(q: int, r: int)
+    requires 0 <= r < {I.bits}
+    ensures (q * {I.bits} + r) / {I.bits} == q, (q * {I.bits} + r) % {I.bits} == r
+{
+    vstd::arithmetic::div_mod::lemma_fundamental_div_mod_converse(q * {I.bits} + r, {I.bits}, q, r);
+}
 pub proof fn lemma_same_word{X}(a: int, k: int)
     requires 0 <= a, 0 <= k, a % {I.bits} + k < {I.bits}
     ensures (a + k) / {I.bits} == a / {I.bits}, (a + k) % {I.bits} == a % {I.bits} + k
@@ -315,6 +322,16 @@ pub proof fn lemma_add_idx{X}(s: int, b: int)
         b % {I.bits} + s % {I.bits} < {I.bits} ==> ((s + b) / {I.bits} == s / {I.bits} + b / {I.bits} && (s + b) % {I.bits} == b % {I.bits} + s % {I.bits}),
         b % {I.bits} + s % {I.bits} >= {I.bits} ==> ((s + b) / {I.bits} == s / {I.bits} + b / {I.bits} + 1 && (s + b) % {I.bits} == b % {I.bits} + s % {I.bits} - {I.bits}),
 {
+    vstd::arithmetic::div_mod::lemma_fundamental_div_mod(s, {I.bits});
+    vstd::arithmetic::div_mod::lemma_fundamental_div_mod(b, {I.bits});
+    let qs = s / {I.bits}; let rs = s % {I.bits}; let qb = b / {I.bits}; let rb = b % {I.bits};
+    if rb + rs < {I.bits} {
+        assert(s + b == (qs + qb) * {I.bits} + (rb + rs)) by(nonlinear_arith) requires s == {I.bits} * qs + rs, b == {I.bits} * qb + rb;
+        lemma_divmod_at{X}(qs + qb, rb + rs);
+    } else {
+        assert(s + b == (qs + qb + 1) * {I.bits} + (rb + rs - {I.bits})) by(nonlinear_arith) requires s == {I.bits} * qs + rs, b == {I.bits} * qb + rb;
+        lemma_divmod_at{X}(qs + qb + 1, rb + rs - {I.bits});
+    }
 }
 // every bit pattern is the pattern of some word
 pub proof fn lemma_bits_to_word{X}(p: spec_fn(nat) -> bool, n: nat) -> (v: {I})
